@@ -153,14 +153,16 @@ PLANS = {
         assumptions=['decorator strings are observed through the trait methods, never assumed', 'the affix stream is compared on table-free documents'],
     ),
     'C01': dict(
-        fams=[('c01', dict(quick=3000, thorough=40000), dict(depth=1000)), ('c01', dict(quick=0, thorough=400), dict(depth=30000))],
+        fams=[('c01', dict(quick=3000, thorough=40000), dict(depth=6000)), ('c01', dict(quick=0, thorough=36), dict(depth=50000, stack='main', shape='deep'))],
         mc=[MC_LOOPS, MC_LIVE, MC_BLOCK, MC_TABLE],
         model_ok=False,
         timeout_ms=dict(quick=60000, thorough=900000),
         nontrivial=lambda rec: bool(rec.get('runs')) and rec['runs'][0]['res']['k'] in ('ok', 'narrow'),
-        rule='MC: no panic state (Inv_C01: shrink loop stuck, column index out of range, missing border line, stack depth) is reachable in MC_Block / MC_Table; random: grammar documents under 1-8 byte mutations (bit flips, splices, truncation, invalid UTF-8, control characters, hostile numbers), random bytes, nesting depth 100 / 1000 / 30000 of 18 element kinds, hostile colspan / ol start, 50-400 column tables; widths {0,1,2,3,1..200,10^5,usize::MAX-1,usize::MAX}; decorators plain/plain_nd/rich/trivial/ASCII custom x random subsets of all options incl. use_doc_css / add_css / add_agent_css, all routes; each case runs under a watchdog (quick 60 s, thorough 15 min) in a process whose death is attributed to the case in flight; non-trivial = the call returned Ok or TooNarrow; distinct by sha256(runs)',
+        rule='MC: no panic state (Inv_C01: shrink loop stuck, column index out of range, missing border line, stack depth) is reachable in MC_Block / MC_Table; random: grammar documents under 1-8 byte mutations (bit flips, splices, truncation, invalid UTF-8, control characters, hostile numbers), random bytes, nesting depth 100 / 1000 / 6000 of 18 element kinds on a thread with a 512 KB stack (the stack budget per level of depth 10^5 on an 8 MB main thread; thorough also depth 50000 on 8 MB), hostile colspan / ol start, 50-400 column tables; widths {0,1,2,3,1..200,10^5,usize::MAX-1,usize::MAX}; decorators plain/plain_nd/rich/trivial/ASCII custom x random subsets of all options incl. use_doc_css / add_css / add_agent_css, all routes; each case runs under a watchdog (quick 60 s, thorough 15 min) in a process whose death is attributed to the case in flight; non-trivial = the call returned Ok or TooNarrow; distinct by sha256(runs)',
         assumptions=['byte-level behaviour of html5ever and of the nom CSS tokenizer is explored, not modelled (DESIGN.md section 10): for those the specification supplies only the Call/Return oracle',
-                     'time bound: 60 s per case in the quick tier, 15 min in the thorough tier'],
+                     'time bound: 60 s per case in the quick tier, 15 min in the thorough tier',
+                     'beyond 1000 nesting levels only configurations whose output is linear in the depth are run (string routes of the decorators without annotations; nested tables without allow_width_overflow): annotated output carries the full annotation vector on every piece of text and is quadratic in the depth by construction of the API',
+                     'stack use must not grow with the nesting depth: deep documents run on a 512 KB thread (depth 6000) and, in the thorough tier, on 8 MB (depth 50000)'],
     ),
     'C17': dict(
         fams=[('c17', dict(quick=4000, thorough=80000), {})],
